@@ -47,6 +47,7 @@ type inlineState struct {
 	changed bool
 
 	curNRes     int // number of results of the function whose body is being processed
+	funcArgs    map[*types.Var]ast.Expr // function-valued parameters bound by the inliner -> argument
 	closures    map[*types.Var]*FuncDecl
 	closureDefs map[*types.Var]int
 }
@@ -428,7 +429,10 @@ func (st *inlineState) callee(call *ast.CallExpr, depth int) *FuncDecl {
 			return false
 		case *ast.ReturnStmt:
 			if len(x.Results) != sig.Results().Len() {
-				bad = true // bare return of named results, or return f() of a tuple
+				// `return f()` handing on a tuple is fine (it becomes `a, b = f()`); a bare return is not
+				if _, isCall := ast.Unparen(firstOrNil(x.Results)).(*ast.CallExpr); !(len(x.Results) == 1 && isCall) {
+					bad = true
+				}
 			}
 		case *ast.CallExpr:
 			if id, ok := x.Fun.(*ast.Ident); ok && id.Name == "recover" {
@@ -458,6 +462,46 @@ func (st *inlineState) closureCallee(call *ast.CallExpr) *FuncDecl {
 	}
 	v, ok := st.info.Uses[id].(*types.Var)
 	if !ok || v.IsField() {
+		return nil
+	}
+	if arg, ok := st.funcArgs[v]; ok {
+		switch a := arg.(type) {
+		case *ast.FuncLit:
+			sig, _ := st.info.TypeOf(a).(*types.Signature)
+			if sig == nil || sig.Variadic() || len(call.Args) != sig.Params().Len() {
+				return nil
+			}
+			bad := false
+			ast.Inspect(a.Body, func(n ast.Node) bool {
+				switch x := n.(type) {
+				case *ast.DeferStmt, *ast.GoStmt, *ast.FuncLit:
+					bad = true
+					return false
+				case *ast.ReturnStmt:
+					if len(x.Results) != sig.Results().Len() {
+						bad = true
+					}
+				}
+				return true
+			})
+			if bad {
+				return nil
+			}
+			obj := types.NewFunc(a.Pos(), st.root.Obj.Pkg(), v.Name(), sig)
+			return &FuncDecl{Pkg: st.root.Pkg, Decl: &ast.FuncDecl{Name: &ast.Ident{Name: v.Name(), NamePos: a.Pos()}, Type: a.Type, Body: a.Body}, Obj: obj}
+		case *ast.SelectorExpr:
+			// a method expression (*T).M: f(x, args…) is x.M(args…)
+			if m, ok := st.info.Uses[a.Sel].(*types.Func); ok && len(call.Args) >= 1 {
+				if tv, ok := st.info.Types[a.X]; ok && tv.IsType() {
+					sel := &ast.Ident{Name: m.Name(), NamePos: call.Pos()}
+					st.info.Uses[sel] = m
+					call.Fun = &ast.SelectorExpr{X: call.Args[0], Sel: sel}
+					call.Args = call.Args[1:]
+					st.changed = true
+				}
+			}
+			return nil
+		}
 		return nil
 	}
 	if st.closures == nil {
@@ -739,6 +783,13 @@ func (st *inlineState) replaceUses(v reflect.Value, pv *types.Var, arg ast.Expr)
 	}
 }
 
+func firstOrNil(l []ast.Expr) ast.Expr {
+	if len(l) == 0 {
+		return nil
+	}
+	return l[0]
+}
+
 func hasLoop(body *ast.BlockStmt) bool {
 	found := false
 	ast.Inspect(body, func(n ast.Node) bool {
@@ -777,6 +828,13 @@ func (st *inlineState) bind(call *ast.CallExpr, cfd *FuncDecl, subst map[*types.
 			return
 		}
 		out = append(out, &ast.AssignStmt{Lhs: []ast.Expr{st.defIdent(v, pos)}, TokPos: pos, Tok: token.DEFINE, Rhs: []ast.Expr{arg}})
+		// a function-valued argument: calls of the parameter inside the callee can be resolved
+		if _, isSig := v.Type().Underlying().(*types.Signature); isSig {
+			if st.funcArgs == nil {
+				st.funcArgs = map[*types.Var]ast.Expr{}
+			}
+			st.funcArgs[v] = ast.Unparen(arg)
+		}
 	}
 	if sig.Recv() != nil {
 		if re := RecvExpr(call); re != nil {
@@ -819,12 +877,12 @@ func (st *inlineState) expand(call *ast.CallExpr, cfd *FuncDecl, depth int, tail
 	st.budget -= len(body.List)
 	sig := fn.Type().(*types.Signature)
 	subst := st.substitute(call, cfd, body)
+	pre := st.bind(call, cfd, subst)
 	saveN := st.curNRes
 	st.curNRes = sig.Results().Len()
 	st.block(body, depth+1)
 	st.curNRes = saveN
 	st.normalise(body)
-	pre := st.bind(call, cfd, subst)
 	// named results are ordinary locals of the callee
 	for i := 0; i < sig.Results().Len(); i++ {
 		if r := sig.Results().At(i); r.Name() != "" && r.Name() != "_" {
